@@ -126,6 +126,58 @@ def lead_letter(text):
     return None
 
 
+_COUNT = re.compile(r"([0-9]+\.?[0-9]*|\.[0-9]+)(?=[A-Z(])")
+
+
+def leading_count(text):
+    """The leading count of a compound text (its formula unit is written scaled), or None."""
+    m = _COUNT.match(text)
+    return m.group(0) if m else None
+
+
+def spelling_class(sp):
+    """'%word' / 'word%' for the spelled percentages, the spelling itself for the bare %."""
+    return sp if sp == "%" else "%word" if sp.startswith("%") else "word%"
+
+
+def respell(node, feat, index):
+    """The same derivation with the spelling named by `feat` ('first=..' / 'later=..') replaced by the
+    spelling of the same shape built from the index-th word of its kind (None if there is no such word)."""
+    t = node[0]
+    if t == "c":
+        return node
+    if t == "n":
+        inner = respell(node[1], feat, index)
+        return None if inner is None else ["n", inner, node[2]]
+    if t == "p":
+        words = WEIGHT_WORDS if node[1] == "w" else VOLUME_WORDS
+        parts = []
+        for i, (v, sp, p) in enumerate(node[2]):
+            if feat == ("first=" if i == 0 else "later=") + sp and sp != "%":
+                if index >= len(words):
+                    return None
+                sp = "%" + words[index] if sp.startswith("%") else words[index] + "%"
+            p = respell(p, feat, index)
+            if p is None:
+                return None
+            parts.append([v, sp, p])
+        last = respell(node[3], feat, index)
+        return None if last is None else ["p", node[1], parts, last]
+    items = []
+    for it in node[2]:
+        if it[0] == "u":
+            p = respell(it[3], feat, index)
+            if p is None:
+                return None
+            items.append(["u", it[1], it[2], p])
+        else:
+            q = respell(it[1], feat, index)
+            if q is None:
+                return None
+            items.append(["g", q, it[2]])
+    return ["q", node[1], items]
+
+
 NEUTRAL_COMPOUND = "Ti"      # leading letter begins no percent word and no unit
 
 # AST (JSON-able lists):
@@ -202,6 +254,8 @@ def features(node, acc=None):
     if t == "c":
         if lead_letter(node[1]):
             acc.add("lead=" + lead_letter(node[1]))
+        if leading_count(node[1]):
+            acc.add("scaled")
     elif t == "n":
         acc.add("nested")
         if node[2]:
@@ -232,11 +286,13 @@ def revert(node, feat):
     t = node[0]
     if t == "c":
         if feat.startswith("lead=") and lead_letter(node[1]) == feat[5:]:
-            return ["c", NEUTRAL_COMPOUND]
+            return ["c", (leading_count(node[1]) or "") + NEUTRAL_COMPOUND]
+        if feat == "scaled" and leading_count(node[1]):
+            return ["c", node[1][len(leading_count(node[1])):]]
         return node
     if t == "n":
         if feat == "nested":
-            return ["c", "Ni"]
+            return ["c", NEUTRAL_COMPOUND]
         return ["n", revert(node[1], feat), None if feat == "tag" else node[2]]
     if t == "p":
         parts = []
